@@ -435,6 +435,8 @@ def has_jump(s):
 
 
 class Tr:
+    S = "h"      # the state threaded through the statements
+
     def __init__(self, fn, this=None):
         self.fn = fn
         self.n = 0
@@ -453,7 +455,7 @@ class Tr:
     def tr(self, stmts, cont, env, ind):
         if not stmts:
             if cont is None:
-                return f"{ind}h"
+                return f"{ind}{self.S}"
             return self.tr(cont[0], cont[1], cont[2], ind)
         s, rest = stmts[0], stmts[1:]
         k = s[0]
@@ -469,7 +471,7 @@ class Tr:
                 self.refuse("`return` inside a loop")
             if k == "continue" and not self.in_loop:
                 self.refuse("`continue` outside a loop")
-            return f"{ind}h"
+            return f"{ind}{self.S}"
         if k == "break":
             self.refuse("`break` outside the understood loop forms")
         if k == "expr":
@@ -491,12 +493,14 @@ class Tr:
                 body = self.cond(s[1], env, ind + "  ",
                                  lambda i: self.tr([s[2]], None, dict(env), i),
                                  lambda i: self.tr([s[3]], None, dict(env), i))
-                return f"{ind}let h :=\n{body}\n" + self.tr(rest, cont, env, ind)
+                return f"{ind}let {self.S} :=\n{body}\n" + self.tr(rest, cont, env, ind)
             c2 = (rest, cont, env)
             return self.cond(s[1], env, ind,
                              lambda i: self.tr([s[2]], c2, dict(env), i),
                              lambda i: self.tr([s[3]], c2, dict(env), i))
         if k == "for":
+            if self.S != "h":
+                self.refuse("loop in a constructor")
             body = self.loop(s, dict(env), ind + "  ")
             return f"{ind}let h :=\n{body}\n" + self.tr(rest, cont, env, ind)
         if k == "switch":
@@ -1105,6 +1109,68 @@ def translate_activation_dtor(src):
     return f"def dtorActivation (h : State) (this : Nat) : State :=\n{text}\n"
 
 
+class TrCtor(Tr):
+    """SignalActivation::SignalActivation: the members of the object under construction are the fields of a record `a : H.Act`
+    threaded beside the heap; `data` (a `SignalData*`) holds a path"""
+    S = "(h, a)"
+
+    def store(self, lhs, rhs, env, lines):
+        if lhs[0] == "id" and lhs[1] in ("data", "next", "begin", "end") and lhs[1] not in env.get("__locals", ()):
+            name = lhs[1]
+            v = self.ev(rhs, env, lines)
+            if name == "data":
+                if v.kind == "val" and v.ty == "act" and v.term == "none":
+                    lines.append("let a := { a with data := none }")
+                    env["data"] = V("nulldata")
+                elif v.kind == "data":
+                    lines.append(f"let a := {{ a with data := some ({v.e}, {v.g}) }}")
+                    env["data"] = v
+                else:
+                    self.refuse(f"`data` assigned from {v}")
+            elif name == "next":
+                if not (v.kind == "val" and v.ty == "act"):
+                    self.refuse(f"`next` assigned from {v}")
+                lines.append(f"let a := {{ a with next := {v.term} }}")
+            elif name == "begin":
+                if not (v.kind == "val" and v.ty == "pos"):
+                    self.refuse(f"`begin` assigned from {v}")
+                env["__begin_of"] = v.of
+                lines.append(f"let a := {{ a with begin := {v.term} }}")
+            else:
+                if v.kind != "end" or env.get("__begin_of") != v.of:
+                    self.refuse("`end` is not assigned the end of the list `begin` was taken from (after `begin`)")
+                lines.append("let a := { a with hasEnd := true }")
+            return v
+        return Tr.store(self, lhs, rhs, env, lines)
+
+    def mcall(self, e, env, lines):
+        _, op, be, f, args = e
+        if f == "begin" and not args:
+            b = self.ev(be, env, lines)
+            if b.kind == "slist":
+                return V("val", term=f"(H.listBegin (H.slots h {b.e} {b.g}))", ty="pos", of=b.key())
+        return Tr.mcall(self, e, env, lines)
+
+
+def translate_activation_ctor(src):
+    what = "Callback::Emitter::SignalActivation::SignalActivation"
+    ptext, inits, body = extract(src, what, r"Callback::Emitter::SignalActivation::SignalActivation")
+    params = params_of(ptext, what)
+    if [k for _, k in params] != ["E", "nat"]:
+        raise Refuse(f"{what}: parameters")
+    if not re.fullmatch(r":\s*invalidated\s*\(\s*false\s*\)", inits):
+        raise Refuse(f"{what}: member initialisers `{inits}` (expected `: invalidated(false)`)")
+    env = {n: value_of("v_" + n, k) for n, k in params}
+    env["this"] = V("val", term="(some this)", ty="act")
+    tr = TrCtor(what, {})
+    ps = Parser(tokenize(body), what, set(env) | {"data", "next", "begin", "end", "invalidated"})
+    stmts = ps.stmts()
+    text = tr.tr(stmts, None, env, "  ")
+    args = "".join(f" (v_{n} : Nat)" for n, _ in params)
+    return (f"def ctorActivation (h : State) (this : Nat){args} : State × H.Act :=\n"
+            f"  let a : H.Act := {{ invalidated := false }}\n{text}\n")
+
+
 # activation pointers as values: `data.activation->invalidated = true`
 _old_member = Tr.member
 
@@ -1349,6 +1415,7 @@ def generate(repo, out):
     t, _ = translate_fn(cpp, "Callback::Emitter::~Emitter", r"Callback::Emitter::~Emitter", "dtorEmitter", this_kind="E",
                         members=member_table_emitter(), want_params=[])
     parts.append(t + "\n")
+    parts.append(translate_activation_ctor(cpp) + "\n")
     parts.append(translate_activation_dtor(cpp) + "\n")
     parts.append("/-! ### include/nstd/Callback.hpp -/\n\n")
     c = plumbing(hpp, "connect", 5)
